@@ -162,6 +162,9 @@ pub fn update(s: Suite, sk: &[u8], sig: &[u8], old: &[u8], new: &[u8], index: us
     let arr: [u8; 80] = sig.try_into().map_err(|_| "boundary: signature length".to_string())?;
     with_suite!(s, CS, {
         let sig = Signature::<BBSplus<CS>>::from_bytes(&arr).map_err(e2s)?;
+        // when the new value extends the old one, the two are passed as views of ONE buffer
+        // (`&buf[..k]`, `&buf[..]`): the same octets as two separate vectors
+        let old: &[u8] = if new.len() >= old.len() && &new[..old.len()] == old { &new[..old.len()] } else { old };
         let up = sig.update_signature(&sk, old, new, index, n).map_err(e2s)?;
         Ok(up.to_bytes().to_vec())
     })
